@@ -28,9 +28,14 @@ from .chunkstore import (BadChunk, ChunkNotFound, ChunkStore, StoreUnavailable,
 
 
 def _write_chunk(filename, chunk, direct_write):
-    if not direct_write:
-        return np.save(filename, chunk, allow_pickle=False)
     header, chunk = npy_header_and_body(chunk)
+    if not direct_write:
+        # Go through a Python file object instead of np.save: the latter uses
+        # ndarray.tofile, which ignores a failed flush when it closes its stream
+        with open(filename, 'wb') as f:
+            f.write(header)
+            f.write(chunk.reshape(-1))
+        return
     size = len(header) + chunk.nbytes
     gran = mmap.ALLOCATIONGRANULARITY
     aligned_size = (size + gran - 1) // gran * gran
